@@ -48,6 +48,9 @@ def gen_params(r: random.Random, *, max_einsums=3, small=True, want_multi=False)
     }
     # some specs take their energies from the top-level `variables` section (expressions in the
     # architecture are evaluated against it), so that "the same arch text" can mean different costs
+    # component names are inputs too: one naming scheme has names that are prefixes of each other
+    p["names"] = r.choice([["MainMemory", "GlobalBuffer", "RegFile", "MAC"]] * 3 +
+                          [["DRAM", "DRAMCache", "DRAMCacheL0", "PE"], ["Mem", "Mem2", "Mem2x", "Mem2xALU"]])
     p["persistent_weights"] = r.random() < 0.2   # weights stay resident across Einsums
     p["glb_bits"] = r.choice([None, None, None, 4, 16])  # per-memory bits_per_value override
     p["use_vars"] = r.random() < 0.35
@@ -85,17 +88,20 @@ def workload_yaml(p) -> str:
 
 def arch_yaml(p) -> str:
     p = dict(p)
+    main, glb, rf, mac = p.get("names") or ["MainMemory", "GlobalBuffer", "RegFile", "MAC"]
+    if p["glb_keep"] == "~MainMemory":
+        p["glb_keep"] = "~" + main
     head = []
     if p.get("use_vars"):
         head = ["variables:", f"  MAIN_E: {p['main_energy']}", f"  GLB_E: {p['glb_energy']}"]
         p["main_energy"] = "MAIN_E"
         p["glb_energy"] = "GLB_E * 1"
     L = head + ["arch:", "  nodes:",
-         "  - !Memory", "    name: MainMemory", "    size: inf", "    leak_power: 0", "    area: 0",
+         "  - !Memory", f"    name: {main}", "    size: inf", "    leak_power: 0", "    area: 0",
          "    tensors: {keep: ~Intermediates, may_keep: All}", "    actions:",
          f"    - {{name: read, energy: {p['main_energy']}, throughput: {p['main_throughput']}}}",
          f"    - {{name: write, energy: {p['main_energy']}, throughput: {p['main_throughput']}}}",
-         "  - !Memory", "    name: GlobalBuffer", f"    size: {p['glb_size']}", "    leak_power: 0",
+         "  - !Memory", f"    name: {glb}", f"    size: {p['glb_size']}", "    leak_power: 0",
          "    area: 0"]
     if p["glb_keep"] == "none":
         L.append("    tensors: {may_keep: All}")
@@ -109,14 +115,14 @@ def arch_yaml(p) -> str:
           f"    - {{name: read, energy: {p['glb_energy']}, throughput: {p['glb_throughput']}}}",
           f"    - {{name: write, energy: {p['glb_energy']}, throughput: {p['glb_throughput']}}}"]
     if p["fanout"] > 1 and p["fanout_at"] == "mac":
-        L += ["  - !Container", "    name: MACArray", "    spatial:",
+        L += ["  - !Container", f"    name: {mac}Array", "    spatial:",
               f"    - {{name: X, fanout: {p['fanout']}}}"]
     if p["rf"]:
-        L += ["  - !Memory", "    name: RegFile", f"    size: {p['rf_size']}", "    leak_power: 0",
+        L += ["  - !Memory", f"    name: {rf}", f"    size: {p['rf_size']}", "    leak_power: 0",
               "    area: 0", "    tensors: {may_keep: All}", "    actions:",
               f"    - {{name: read, energy: {p['rf_energy']}, throughput: inf}}",
               f"    - {{name: write, energy: {p['rf_energy']}, throughput: inf}}"]
-    L += ["  - !Compute", "    name: MAC", "    leak_power: 0", "    area: 0", "    actions:",
+    L += ["  - !Compute", f"    name: {mac}", "    leak_power: 0", "    area: 0", "    actions:",
           f"    - {{name: compute, energy: {p['mac_energy']}, throughput: {p['mac_throughput']}}}"]
     return "\n".join(L) + "\n"
 
